@@ -13,6 +13,7 @@ package main
 //              Model/Mirror.v
 //   stall.go, standin.go, cancel.go   the link holding bytes back, a scripted remote node,
 //              cancelled remote units
+//   long.go    one results stream open for 70 s beside everything else (unix socket and TCP)
 //   throttle.go  a slow link: `work results` on the submitting node while its record of the remote
 //              unit is final and its copy of the output is short; Coq cases (RMCase) for
 //              Model/Results.v under the mirrored-world contract
@@ -257,7 +258,7 @@ func (s *shared) violate(what, sig string, replay interface{}) {
 
 func runC05(c *Ctx) {
 	im := NewImpl("C05", c.Seed, c.Tier)
-	im.Rule = "local: one scripted producer (bash script emitting writes and pauses of a byte pattern: empty output, 1 byte, 64 KiB multiples and straddles, output after a pause, pause before exit, failing exit, cancelled, random plans from the seed) per unit; one observation = one `work results <unit> <p>` session asked before / while / after the unit runs with p in {0, 1, write boundaries and their neighbours, size, size+1}; non-trivial = the unit has output and (the session overlaps the run or p > 0). remote: one transfer through a TCP proxy that cuts and heals the link, one observation = one 50 ms sample of (local stdout, remote stdout), non-trivial = local non-empty and shorter than remote; plus transfers over a link that holds the remote node's bytes for 300-900 ms and releases them in one write (several units, stalls repeated throughout) and transfers from a scripted stand-in remote node that writes the results header and the first output in one write or splits the header at a position (quick: a sample of positions, thorough: every position), one observation = one 50 ms look at the local stdout or one `work results` session on the mirrored unit; plus three units (Succeeded, Failed, Canceled; 0.8-1.5 MB printed at once) over a link of a few hundred KB/s, where the record on the submitting node is final with the full size while the local copy is short, one observation = one `work results` session asked at submission / at the moment the record turned final / with the copy 30-80 % complete, from 0, from beyond the copy, from its middle, its last byte and its end, non-trivial = the copy was short when asked; distinct by (plan, moment, p) / sample content / (mode, offset)"
+	im.Rule = "local: one scripted producer (bash script emitting writes and pauses of a byte pattern: empty output, 1 byte, 64 KiB multiples and straddles, output after a pause, pause before exit, failing exit, cancelled, random plans from the seed) per unit; one observation = one `work results <unit> <p>` session asked before / while / after the unit runs with p in {0, 1, write boundaries and their neighbours, size, size+1}; non-trivial = the unit has output and (the session overlaps the run or p > 0). remote: one transfer through a TCP proxy that cuts and heals the link, one observation = one 50 ms sample of (local stdout, remote stdout), non-trivial = local non-empty and shorter than remote; plus transfers over a link that holds the remote node's bytes for 300-900 ms and releases them in one write (several units, stalls repeated throughout) and transfers from a scripted stand-in remote node that writes the results header and the first output in one write or splits the header at a position (quick: a sample of positions, thorough: every position), one observation = one 50 ms look at the local stdout or one `work results` session on the mirrored unit; plus three units (Succeeded, Failed, Canceled; 0.8-1.5 MB printed at once) over a link of a few hundred KB/s, where the record on the submitting node is final with the full size while the local copy is short, one observation = one `work results` session asked at submission / at the moment the record turned final / with the copy 30-80 % complete, from 0, from beyond the copy, from its middle, its last byte and its end, non-trivial = the copy was short when asked; plus one unit writing a line every second for 64 s (thorough: 130 s) followed from offset 0 from its submission over the unix socket and over a TCP control service, beside everything else; distinct by (plan, moment, p) / sample content / (mode, offset)"
 	if c.Bin == "" {
 		fmt.Fprintln(os.Stderr, "C05 needs the receptor binary (VERIF_BIN)")
 		os.Exit(3)
@@ -268,8 +269,21 @@ func runC05(c *Ctx) {
 	sh := &shared{im: im,
 		rc: &CaseFile{Dir: c.Out, Prop: "C05", Imports: []string{"Model.Results", "Model.Mirror"}, CaseType: "c05_case", CheckFn: "c05_check", PerShard: 12}}
 	var wg sync.WaitGroup
+	only := os.Getenv("C05_ONLY") // development aid: "local", "remote" or "long"
+	// the long-lived stream: started first, joined last
+	var lwg sync.WaitGroup
+	if only == "" || only == "long" {
+		lwg.Add(1)
+		go func() {
+			defer lwg.Done()
+			t0 := time.Now()
+			runLong(c, sh, filepath.Join(tmp, "long"))
+			sh.mu.Lock()
+			sh.im.Extra["wall:long-stream"] = time.Since(t0).Round(100 * time.Millisecond).String()
+			sh.mu.Unlock()
+		}()
+	}
 	wg.Add(2)
-	only := os.Getenv("C05_ONLY") // development aid: "local" or "remote"
 	go func() {
 		defer wg.Done()
 		if only != "remote" {
@@ -287,6 +301,7 @@ func runC05(c *Ctx) {
 		}
 	}()
 	wg.Wait()
+	lwg.Wait()
 	spreadHeavy(sh.rc)
 	Must(sh.rc.Write())
 	Must(im.Write(c.Out))
